@@ -310,6 +310,39 @@ pub fn sharing_key(g: &Group) -> Option<Vec<u8>> {
   Some(crate::refmodel::le24(&crate::refmodel::lagrange_at_zero(&pts))[..16].to_vec())
 }
 
+
+/// boundary search on an internal value: measurements (named `<prefix><i>`) whose 16-byte SHARING KEY - the
+/// constant term of the sharing polynomial, obtained by interpolating t honest shares - has a 0x00 / 0xff
+/// first, middle or last byte or two consecutive zero bytes. Returns (measurement, key).
+pub fn boundary_key_measurements(prefix: &str, epoch: &[u8], t: u32, lo: u64, count: u64) -> (Vec<(Vec<u8>, Vec<u8>)>, u64) {
+  let mut out = vec![];
+  let mut examined = 0u64;
+  for i in lo..lo + count {
+    let meas = format!("{}{}", prefix, i).into_bytes();
+    let rnd = local_randomness(&meas, epoch, t);
+    let n = t as usize;
+    let mut msgs = vec![];
+    for k in 0..n {
+      getrandom::verif::set_group(k as u32 + 1);
+      if let Ok(m) = gen_report(&meas, epoch, t, &rnd, &None) {
+        msgs.push(m);
+      }
+    }
+    if msgs.len() != n {
+      continue;
+    }
+    let xs: Vec<BigUint> = msgs.iter().filter_map(|m| share_x(&m.share.to_bytes())).collect();
+    let g = Group { msgs, xs, auxs: vec![None; n], meas: meas.clone(), epoch: epoch.to_vec(), t };
+    if let Some(k) = sharing_key(&g) {
+      examined += 1;
+      if k[15] == 0 || k[0] == 0 || k[15] == 0xff || k[0] == 0xff || k[8] == 0 || k.windows(2).any(|w| w == [0, 0]) {
+        out.push((meas, k));
+      }
+    }
+  }
+  (out, examined)
+}
+
 /// one thread, one client randomness, several thresholds in a row: sharings must not influence each other
 fn run_threshold_sequence(cx: &mut CaseCx, case: &Value) {
   let ts: Vec<u32> = case["ts"].as_array().unwrap().iter().map(|v| v.as_u64().unwrap() as u32).collect();
@@ -581,6 +614,87 @@ fn run_large_payloads(cx: &mut CaseCx, case: &Value) {
   cx.outcome("large payloads open");
 }
 
+
+/// the aggregation side at scale: one `retrieve_outputs` call over several thousand reports in which the
+/// matching reports of a measurement are FAR APART (first and last position, every 1000th position, one per
+/// 1024-block), between filler reports of measurements that stay below threshold
+fn run_aggregation_scale(cx: &mut CaseCx, case: &Value) {
+  use star_test_utils::AggregationServer;
+  let t = case["t"].as_u64().unwrap() as u32;
+  let total = case["total"].as_u64().unwrap() as usize;
+  let epoch = "epoch";
+  let mk = |m: &[u8], k: u32, aux: &Option<Vec<u8>>| -> Option<Message> {
+    getrandom::verif::set_group(k + 1);
+    gen_report(m, epoch.as_bytes(), t, &local_randomness(m, epoch.as_bytes(), t), aux).ok()
+  };
+  // fillers: `total` distinct measurements with one report each (below threshold for t >= 2)
+  let mut slots: Vec<Message> = vec![];
+  for i in 0..total {
+    match mk(format!("filler-{}", i).as_bytes(), 7, &None) {
+      Some(m) => slots.push(m),
+      None => return,
+    }
+  }
+  // groups: (name, positions)
+  let last = total - 1;
+  let mut groups: Vec<(Vec<u8>, Vec<usize>)> = vec![
+    (b"first-and-last".to_vec(), (0..t as usize).map(|k| if k == 0 { 0 } else { last - (k - 1) }).collect()),
+    (b"one-per-1024-block".to_vec(), (0..t as usize).map(|k| (k * 1024 + 5).min(last - 10 - k)).collect()),
+    (b"around-1024".to_vec(), (0..t as usize).map(|k| 1023 + k).collect()),
+    (b"every-1000th".to_vec(), (0..(t as usize + 1)).map(|k| (k * 1000 + 17).min(last - 20 - k)).collect()),
+  ];
+  if t >= 2 {
+    groups.push((b"below-threshold-far-apart".to_vec(), (0..(t as usize - 1)).map(|k| k * 1024 + 9).collect()));
+  }
+  let mut expect: Vec<(Vec<u8>, Vec<Option<Vec<u8>>>)> = vec![];
+  for (gi, (name, pos)) in groups.iter().enumerate() {
+    let mut auxs = vec![];
+    for (k, &p) in pos.iter().enumerate() {
+      let aux = if k % 2 == 0 { Some(vec![gi as u8, k as u8, 0xA5]) } else { None };
+      match mk(name, 100 + k as u32, &aux) {
+        Some(m) => slots[p] = m,
+        None => return,
+      }
+      auxs.push(aux);
+    }
+    if pos.len() >= t as usize {
+      auxs.sort();
+      expect.push((name.clone(), auxs));
+    }
+  }
+  let server = AggregationServer::new(t, epoch);
+  cx.eval();
+  cx.count("states", 1);
+  cx.count("transitions", 1);
+  cx.nontrivial(fnv_str(&case.to_string()));
+  let out = match guard(|| server.retrieve_outputs(&slots)) {
+    Ok(o) => o,
+    Err(p) => {
+      cx.viol("C01/aggregation-scale/server-panicked", p, json!({"t": t, "reports": total}));
+      return;
+    }
+  };
+  for (name, want) in &expect {
+    let found: Vec<_> = out.iter().filter(|o| o.x.as_vec() == *name).collect();
+    let nm = String::from_utf8_lossy(name).to_string();
+    if found.len() != 1 {
+      cx.viol("C01/aggregation-scale/not-revealed", format!("measurement {:?}, reported by {} >= t = {} clients whose reports lie far apart in a batch of {} reports, appears {} times in the output", nm, want.len(), t, total, found.len()), json!({"t": t, "reports": total, "group": nm}));
+      return;
+    }
+    let mut got: Vec<Option<Vec<u8>>> = found[0].aux.iter().map(|a| a.as_ref().map(|d| d.as_vec()).filter(|v| !v.is_empty())).collect();
+    got.sort();
+    if got != *want {
+      cx.viol("C01/aggregation-scale/associated-data-wrong", format!("measurement {:?} is revealed with {} associated-data entries instead of its {} clients' ({} reports in the batch)", nm, got.len(), want.len(), total), json!({"t": t, "reports": total, "group": nm}));
+      return;
+    }
+    cx.count("far_apart_groups_revealed", 1);
+  }
+  if t >= 2 && out.iter().any(|o| o.x.as_vec().starts_with(b"filler-") || o.x.as_vec() == b"below-threshold-far-apart") {
+    cx.viol("C01/aggregation-scale/below-threshold-revealed", "a measurement with fewer than t reports was revealed", json!({"t": t, "reports": total}));
+  }
+  cx.outcome(format!("t={} total={}", t, total));
+}
+
 /// boundary search on the tag: measurements whose tag has a 0x00 / 0xff first or last byte, aggregated by the
 /// reference aggregation server (the "aggregation side" of the repository) - they must be revealed like any other
 fn run_boundary_tags(cx: &mut CaseCx, case: &Value) {
@@ -805,6 +919,21 @@ pub fn spec() -> PropSpec {
         gen: |_| [1u64, 2, 3, 5].iter().map(|t| json!({"t": t})).collect(),
         run: run_randomness_values,
         min_counts: &[("ok_recoveries", 60)],
+      },
+      Check {
+        name: "aggregation-at-scale",
+        rule: "the repository's reference aggregation side over ONE batch of 1100 / 2100 / 4200 reports (t in {2,3}): mostly single-report fillers, plus groups whose matching reports lie far apart - first and last position, one per 1024-report block, positions 1023.., every 1000th - and a far-apart group below threshold: each group revealed exactly once with exactly its clients' associated data, nothing below threshold",
+        gen: |_| {
+          let mut v = vec![];
+          for t in [2u64, 3] {
+            for total in [1100u64, 2100, 4200] {
+              v.push(json!({"t": t, "total": total}));
+            }
+          }
+          v
+        },
+        run: run_aggregation_scale,
+        min_counts: &[("far_apart_groups_revealed", 20)],
       },
       Check {
         name: "boundary-tags",
